@@ -133,7 +133,9 @@ class ParseState(metaclass=ParseStateMeta):
         :raises ValueError: If the parse failed to reduce to a single result.
         """
 
-        if len(self.values) != 1:
+        # A lone operator, parenthesis or quoted string is not a rule
+        if (len(self.values) != 1 or
+                self.tokens[0] in ('(', ')', 'and', 'or', 'not', 'string')):
             raise ValueError('Could not parse rule')
         return self.values[0]
 
